@@ -3,7 +3,7 @@
    the same flags (\Recent, which is per session, aside). Together with Proofs/ViewProofs.v: a STORE by one session
    reaches every other session's view unaltered. *)
 From Coq Require Import List NArith Bool Lia Arith.
-From Gluon Require Import Model.Responders Model.Session Proofs.MembershipProofs Proofs.ViewProofs.
+From Gluon Require Import Model.Responders Model.Session Proofs.MirrorProofs Proofs.MembershipProofs Proofs.ViewProofs.
 Import ListNotations.
 Open Scope N_scope.
 
@@ -488,4 +488,124 @@ Proof.
   rewrite view_apply_own_flags.
   eapply same_view_trans; [apply apply_parts_same_view; exact Hs|].
   apply same_view_sym. rewrite <- (view_apply_own_flags sel _ og si). apply store_matches_update_b; assumption.
+Qed.
+
+(* ---------- the database side of EXPUNGE and of APPEND / connector MessagesCreated ---------- *)
+Lemma fresh_rows_remove w m rows : idl_nodup (rows_ids rows) ->
+  map (row_view w) (rows_remove m rows) = snap_remove m (map (row_view w) rows).
+Proof.
+  induction rows as [|r t IH]; [reflexivity|]. cbn [rows_ids map idl_nodup fst]. intros [Hn Hd].
+  cbn [rows_remove filter snap_remove row_view sm_id]. fold (rows_remove m t).
+  destruct (N.eqb_spec (r_id r) m) as [E|E]; cbn [negb map].
+  - (* the first row goes; no other row has this id *)
+    subst m. clear IH Hd. induction t as [|y t' IHt]; [reflexivity|].
+    cbn [rows_ids map idl_has existsb fst] in Hn. apply orb_false_iff in Hn as [H1 H2].
+    cbn [rows_remove filter]. rewrite H1. cbn [negb map]. f_equal. apply IHt. exact H2.
+  - f_equal. apply IH. exact Hd.
+Qed.
+
+Lemma idl_has_filter m' m (l : idl) : idl_has m' l = false -> idl_has m' (filter (fun x => negb (fst x =? m)) l) = false.
+Proof.
+  unfold idl_has. unfold idl, msgid, uid in *. induction l as [|y t IH]; [reflexivity|]. cbn [existsb filter]. intros H.
+  apply orb_false_iff in H as [A B]. destruct (fst y =? m); cbn [negb existsb]; [apply IH; exact B|].
+  rewrite A. apply IH. exact B.
+Qed.
+
+Lemma idl_nodup_filter m (l : idl) : idl_nodup l -> idl_nodup (filter (fun x => negb (fst x =? m)) l).
+Proof.
+  unfold idl, msgid, uid in *. induction l as [|x t IH]; [auto|]. cbn [idl_nodup filter]. intros [H1 H2].
+  destruct (fst x =? m); cbn [negb]; [apply IH; exact H2|]. cbn [idl_nodup]. split; [apply idl_has_filter; exact H1|apply IH; exact H2].
+Qed.
+
+Lemma fold_rows_remove_view w ms : forall rows, idl_nodup (rows_ids rows) ->
+  map (row_view w) (fold_left (fun rows m => rows_remove m rows) ms rows)
+  = fold_left (fun v m => snap_remove m v) ms (map (row_view w) rows).
+Proof.
+  induction ms as [|m t IH]; intros rows Hn; cbn [fold_left]; [reflexivity|].
+  rewrite IH.
+  - rewrite fresh_rows_remove by exact Hn. reflexivity.
+  - rewrite rows_ids_remove. apply idl_nodup_filter. exact Hn.
+Qed.
+
+Lemma mbox_of_set_rows w mb rows : (N.to_nat mb < length (w_mbox w))%nat -> mbox_of (set_mbox mb rows w) mb = rows.
+Proof. intros H. unfold mbox_of, set_mbox. cbn [w_mbox]. rewrite nth_nth_upd. apply Nat.ltb_lt in H. rewrite H. reflexivity. Qed.
+
+(* EXPUNGE / MOVE out / connector removal: what a newly opened session sees after remove_rows is what the emitted
+   EXPUNGE updates, applied in order, make of what it saw before *)
+Theorem remove_rows_matches_updates w mb ms :
+  (N.to_nat mb < length (w_mbox w))%nat -> idl_nodup (rows_ids (mbox_of w mb)) ->
+  let '(w1, ups) := remove_rows w mb ms in
+  ups = map (UExpunge mb) ms /\
+  fresh_view w1 mb = fold_left (fun v u => view_apply mb u v) ups (fresh_view w mb).
+Proof.
+  intros Hlt Hn. unfold remove_rows. split; [reflexivity|].
+  unfold fresh_view. rewrite (mbox_of_set_rows w mb _ Hlt).
+  assert (Hrv : forall rows, map (row_view (set_mbox mb (fold_left (fun rows m => rows_remove m rows) ms (mbox_of w mb)) w)) rows
+                               = map (row_view w) rows) by (intros; reflexivity).
+  rewrite Hrv. rewrite (fold_rows_remove_view w ms _ Hn). clear Hrv.
+  generalize (map (row_view w) (mbox_of w mb)). induction ms as [|m t IH]; intros v; cbn [map fold_left]; [reflexivity|].
+  cbn [view_apply]. rewrite N.eqb_refl. apply IH.
+Qed.
+
+(* ---------- APPEND (and a message created by the connector): the database gets a new row and a flags entry ---------- *)
+Lemma flags_of_app_other fl m fs m' : m' <> m -> flags_of (fl ++ [(m, fs)]) m' = flags_of fl m'.
+Proof.
+  intros Hne. induction fl as [|[a g] t IH]; cbn [app flags_of].
+  - destruct (N.eqb_spec m m'); [congruence|reflexivity].
+  - destruct (a =? m'); [reflexivity|exact IH].
+Qed.
+
+Lemma flags_of_app_new fl m fs : has_entry m fl = false -> flags_of (fl ++ [(m, fs)]) m = fs.
+Proof.
+  induction fl as [|[a g] t IH]; cbn [app flags_of has_entry existsb fst]; intros H.
+  - rewrite N.eqb_refl. reflexivity.
+  - apply orb_false_iff in H as [A B]. unfold msgid in *. rewrite A. apply IH. exact B.
+Qed.
+
+Lemma get_flags_app m v x : snap_get_flags m (v ++ [x])
+  = if snap_has m v then snap_get_flags m v else if sm_id x =? m then sm_flags x else [].
+Proof.
+  induction v as [|y r IH]; cbn [app snap_get_flags snap_has existsb]; [reflexivity|].
+  destruct (sm_id y =? m); [reflexivity|exact IH].
+Qed.
+
+Lemma all_lt_fresh w rows u : idl_all_lt u (rows_ids rows) -> all_lt u (map (row_view w) rows).
+Proof. induction rows as [|r t IH]; cbn [rows_ids map idl_all_lt all_lt snd row_view sm_uid]; [auto|]. intros [H1 H2]. split; [exact H1|apply IH; exact H2]. Qed.
+
+Theorem append_matches_update w mb f og :
+  (N.to_nat mb < length (w_mbox w))%nat ->
+  has_entry (w_nextid w) (w_flags w) = false -> row_has (w_nextid w) (mbox_of w mb) = false ->
+  idl_all_lt (next_of w mb) (rows_ids (mbox_of w mb)) ->
+  same_view (fresh_view (append_db w mb f) mb)
+            (view_apply mb (UExists mb [(w_nextid w, next_of w mb, f)] og) (fresh_view w mb)).
+Proof.
+  intros Hlt Hne Hnr Hall. set (m := w_nextid w) in *. set (u := next_of w mb) in *.
+  cbn [view_apply fold_left]. rewrite N.eqb_refl. unfold view_add, fresh_view.
+  rewrite has_fresh, Hnr.
+  rewrite (insert_at_end (mkSmsg m u (fl_rem f [fl_recent])) _ (all_lt_fresh w _ _ Hall)).
+  (* the database side *)
+  assert (Hrows : mbox_of (append_db w mb f) mb = mbox_of w mb ++ [mkRow m u (fl_mem fl_deleted f)]).
+  { unfold append_db. fold m u. unfold set_next. unfold mbox_of at 1. cbn [w_mbox set_mbox]. rewrite nth_nth_upd.
+    apply Nat.ltb_lt in Hlt. rewrite Hlt. reflexivity. }
+  rewrite Hrows, map_app. cbn [map].
+  assert (Hold : map (row_view (append_db w mb f)) (mbox_of w mb) = map (row_view w) (mbox_of w mb)).
+  { apply map_ext_in. intros r Hr. unfold row_view. f_equal.
+    assert (Hid : r_id r <> m).
+    { intros E. unfold row_has in Hnr. assert (X : existsb (fun r0 => r_id r0 =? m) (mbox_of w mb) = true).
+      { apply existsb_exists. exists r. split; [exact Hr|apply N.eqb_eq; exact E]. } congruence. }
+    unfold append_db. fold m u. cbn [w_flags set_next set_mbox]. rewrite flags_of_app_other by exact Hid. reflexivity. }
+  rewrite Hold.
+  split.
+  - unfold ids_of. rewrite !map_app. cbn [map row_view sm_id sm_uid r_id r_uid]. reflexivity.
+  - intros m' g Hg. rewrite !get_flags_app.
+    destruct (snap_has m' (map (row_view w) (mbox_of w mb))); [reflexivity|].
+    cbn [row_view sm_id sm_flags r_id r_deleted]. destruct (m =? m') eqn:E; [|reflexivity].
+    unfold append_db. fold m u. cbn [w_flags set_next set_mbox]. rewrite flags_of_app_new by exact Hne.
+    assert (Hr : (g =? fl_recent) = false) by (apply N.eqb_neq; exact Hg).
+    assert (Hd : (g =? fl_deleted) = true -> fl_mem g f = fl_mem fl_deleted f) by (intros X; apply N.eqb_eq in X; subst g; reflexivity).
+    destruct (fl_mem fl_deleted f) eqn:D.
+    + rewrite fl_mem_add, !fl_mem_rem, !fl_mem_single, Hr.
+      destruct (g =? fl_deleted) eqn:Ed; [rewrite (Hd eq_refl)|]; destruct (fl_mem g f); reflexivity.
+    + rewrite !fl_mem_rem, !fl_mem_single, Hr.
+      destruct (g =? fl_deleted) eqn:Ed; [rewrite (Hd eq_refl)|]; destruct (fl_mem g f); reflexivity.
 Qed.
